@@ -126,6 +126,30 @@ def check(case):
         labels.append('net-power<=0')
     # --- superposition
     if len(srcs) >= 2:
+        # (i) each source really alone (a 0 V source is a short circuit, i.e. no source at all)
+        tot = np.zeros_like(I)
+        for k in range(len(srcs)):
+            ck = copy.deepcopy(case)
+            ck['sources'] = [ck['sources'][k]]
+            mk = build.model(ck)
+            mk.compute_impedance_matrix()
+            mk.compute_impedance_matrix_loads()
+            mk.compute_rhs()
+            mk.compute_currents()
+            tot = tot + np.array(mk.current)
+        err = np.abs(tot - I).max() / imax
+        if err > tol * len(srcs):
+            fails.append(('superposition:alone', 'sum of the responses to each source alone differs by %.3g of the largest '
+                          'current (tol %.1g); source kinds %s' % (err, tol, [s.get('_kind') for s in srcs])))
+        # (ii) the order in which the sources are given does not matter
+        cr = copy.deepcopy(case)
+        cr['sources'] = list(reversed(cr['sources']))
+        mr = common.solved(cr)
+        err = np.abs(np.array(mr.current) - I).max() / imax
+        if err > tol:
+            fails.append(('source-order', 'currents change by %.3g of the largest current when the sources are listed in '
+                          'reverse order; source kinds %s' % (err, [s.get('_kind') for s in srcs])))
+        # (iii) the others held at 0 V
         tot = np.zeros_like(I)
         for k in range(len(srcs)):
             ck = copy.deepcopy(case)
